@@ -1,12 +1,16 @@
 """C13 - match, Option/Result, ?, try and checked preserve variants and payloads.
 
-Theorems: coq/C13/Properties_C13.v (first-arm law of the match loop, no-arm error, payload channel
-round-trip, transport invariants over arbitrary step lists, ? chains of any length, try/checked
-classification; the defects of the pinned code as `_refuted` witnesses).
-Tie: three families of skeleton programs - (A) a value is constructed, transported (declaration from
+Theorems: coq/C13/Properties_C13.v (first-arm law of the match loop, whole-name comparison, no-arm error,
+payload channel round-trip, transport invariants over arbitrary step lists, sequences of match functions
+(history freedom), ? chains of any length, try/checked classification; the defects of the pinned code as
+`_refuted` witnesses).
+Tie: four families of skeleton programs - (A) a value is constructed, transported (declaration from
 variable/call, assignment, parameter passing, return) and consumed by match / .variant / .value;
-(Q) chains of functions propagating with `?`; (T) core expressions under try/checked in six statement
-contexts - are printed as Cb programs and run on the real `main`; stdout transcript and error class must
+(M) several values sent through match statements packaged as functions (void / returning from the arm /
+expression-bodied arms / in a loop / nested / inline), variant names with prefix, suffix and case relations,
+names shared by two enums; (Q) chains of functions propagating with `?` applied to the call or to a variable;
+(T) core expressions - also with the failing operation inside a called function - under try/checked in six
+statement contexts - are printed as Cb programs and run on the real `main`; stdout transcript and error class must
 equal the extracted Mech model for EVERY program (conforming or not); Mech vs Spec classifies.
 classify_runtime_error/build_result_err are additionally compared byte for byte on random messages
 through a leaf driver that includes the repository's error_handling.cpp.
@@ -29,12 +33,18 @@ META = {
     "text": "Machine-checked theorems about a Gallina model of execute_match_statement, the enum branches of declaration.cpp / "
             "return.cpp / evaluate_variable_typed (variant + associated_int_value + associated_str_value, string channel chosen "
             "iff non-empty), evaluate_error_propagation and classify_runtime_error / evaluate_try_like_expression: the match loop "
-            "runs exactly the first matching arm or fails; payloads round-trip through the two channels except the empty string; "
+            "runs exactly the first matching arm or fails, and the selected arm names the stored variant exactly (an arm whose name is a proper "
+            "prefix / extension / case variant of it is passed over); sequences of match functions (void, returning from the arm, expression-bodied, "
+            "in a loop, nested, inline) equal the Spec on the conforming fragment and a call never depends on the calls before it; payloads round-trip through the two channels except the empty string; "
             "on the fragment that avoids the recorded defects every transport (declaration, assignment, argument, return), every "
             "`?` chain of any length (all five contexts incl. the expression statement) and every `return try e` / `R r = try e;` "
             "equals the property's own reading (Spec) for all values, step lists and link lists; integer payloads of any size are "
             "bound unchanged and modulo by zero is classed as division by zero (repairs b144e56, d2267e2, 982c54e, 4ea336a mirrored); the defects of the pinned code are `_refuted` witnesses (known findings). The model is tied to the "
-            "code on every run: exhaustive arm orders/wildcards for 1-5 variants, all short transport sequences, all `?` chains of "
+            "code on every run: exhaustive arm orders/wildcards for 1-5 variants, every ordered pair of 18 sets of related variant names "
+            "(prefix, suffix, infix, case, Option/Result's own names, one-letter, digits, underscores) under 5 arm lists with rotating binding form / "
+            "binding-name scheme / arm-body form, all arm orders for 3 name sets per seed, match suites over every style, user enums whose type name "
+            "is near the Result/Option prefix rule, `?` on the call and on a variable, failing operations inside called functions under try/checked, "
+            "all short transport sequences, all `?` chains of "
             "1-5 links with the failing link at every position and every context, all small core expressions under try/checked, "
             "boundary payloads, plus random deeper cases, are printed as Cb programs and run on the real binary; transcript and "
             "error class must equal the extracted model for every program, including the defect shapes; classify_runtime_error "
@@ -42,8 +52,9 @@ META = {
     "note": "Trusted: Coq kernel (vm_compute for the refutation witnesses), no axioms (Print Assumptions: closed); extraction via "
             "ExtrOcamlBasic+ExtrOcamlString; the model is hand-written and tied by differential testing only; the Python printer "
             "of skeletons to Cb text. Not modelled: struct/enum-typed payloads (associated_value), await?, member?, "
-            "`?` inside println arguments and call arguments and binding-name reuse across matches (both recorded as findings by "
-            "fixed programs), try/checked inside larger expressions, x.value on a payload-less variant.",
+            "`?` inside println arguments and call arguments and binding-name reuse across matches of different payload kinds / binding names equal "
+            "to a live variable (recorded as findings by fixed programs), T::V() with empty parentheses, try/checked inside larger expressions, "
+            "x.value on a payload-less variant.",
 }
 
 RT = "Result<int, RuntimeError>"
@@ -59,6 +70,8 @@ NAME_SETS = [
     ["Some", "None", "Something"], ["Err", "Error", "Er"], ["X", "XX", "x"], ["V1", "V10", "V100"], ["Item", "_Item", "Item_"],
     ["ab", "ba", "aba"], ["Left", "Right", "Light"], ["None", "Non", "NoneOf"], ["Nil", "Null", "Nul"],
     ["Ok", "Err", "Some", "None"], ["E", "EE", "Ee"], ["Quit", "Qui", "uit", "Q"], ["aB", "Ab", "AB", "ab"],
+    # a long common prefix (beyond 8 / 16 / 32 bytes: fixed-width or small-string comparisons)
+    ["ConnectionResetByPeerWhileReadingTheHeader", "ConnectionResetByPeerWhileReadingTheHeaders", "ConnectionResetByPeer", "ConnectionReset"],
 ]
 # user enum names around the "starts with Result/Option" rule of handle_enum_access_return / evaluate_error_propagation
 TYPE_NAMES = ["E", "Shape", "Outcome", "Optional", "Results", "MyResult", "Opt", "Res", "result", "OptionX", "ResultOf", "T1"]
@@ -104,6 +117,8 @@ def cons(tn, var, p):
 def type_name(t):
     if t["kind"] == "gen":
         return "%s<%s>" % (t["name"], t["targ"])
+    if t["kind"] == "gen2":
+        return "%s<%s, %s>" % (t["name"], t["targs"][0], t["targs"][1])
     return t["name"]
 
 
@@ -172,14 +187,7 @@ def cb_a(c):
     tn = type_name(t)
     vs = t["variants"]
     out = []
-    if t["kind"] == "user":
-        out.append("enum %s {" % t["name"])
-        out.append(",\n".join("    %s%s" % (n, "" if k == "none" else "(%s)" % k) for n, k in vs))
-        out.append("};")
-    elif t["kind"] == "gen":
-        out.append("enum %s<T> {" % t["name"])
-        out.append(",\n".join("    %s%s" % (n, "" if k == "none" else "(T)") for n, k in vs))
-        out.append("};")
+    out += enum_decl(t)
     vi, pay = c["val"]
     direct = c["final"] in ("mk", "mkv", "cons")
     out.append("%s idf(%s x) { return x; }" % (tn, tn))
@@ -277,6 +285,8 @@ def enum_decl(t):
         return ["enum %s {" % t["name"], ",\n".join("    %s%s" % (n, "" if k == "none" else "(%s)" % k) for n, k in t["variants"]), "};"]
     if t["kind"] == "gen":
         return ["enum %s<T> {" % t["name"], ",\n".join("    %s%s" % (n, "" if k == "none" else "(T)") for n, k in t["variants"]), "};"]
+    if t["kind"] == "gen2":      # two type parameters, a concrete-typed variant, a payload-less one
+        return ["enum %s<T, U> {" % t["name"], ",\n".join("    " + d for d in t["decl"]), "};"]
     return []
 
 
@@ -285,7 +295,7 @@ def cb_m(c):
     out = []
     seen = set()
     for t in c["types"]:
-        if t["kind"] in ("user", "gen") and t["name"] not in seen:
+        if t["kind"] in ("user", "gen", "gen2") and t["name"] not in seen:
             seen.add(t["name"])
             out += enum_decl(t)
     if any(f["style"] == "expr" for f in c["fns"]):
@@ -364,7 +374,7 @@ def cb_m(c):
 # case: {"fam":"Q","kind":"R"|"O","ok":payload,"sel":int,"links":[[ctx,payload]],"ekind":"int"|"string"}
 def line_q(c):
     return "\t".join(["Q", c["kind"], pl_ser(c["ok"]), str(c["sel"]),
-                      ",".join("%s:%s" % (l[0], pl_ser(l[1])) for l in c["links"]) or "-"])
+                      ",".join("%s:%s%s" % (l[0], pl_ser(l[1]), ":v" if len(l) > 2 and l[2] == "v" else "") for l in c["links"]) or "-"])
 
 
 def cb_q(c):
@@ -379,7 +389,8 @@ def cb_q(c):
     n = len(c["links"])
     out = []
     for i in range(n, 0, -1):
-        ctx, ep = c["links"][i - 1]
+        ctx, ep = c["links"][i - 1][:2]
+        opvar = len(c["links"][i - 1]) > 2 and c["links"][i - 1][2] == "v"
         b = ['println("enter", %d);' % i]
         fail = cons(R, errv, ep) if c["kind"] == "R" else "%s::None" % R
         b.append("if (x == %d) { return %s; }" % (i, fail))
@@ -387,6 +398,9 @@ def cb_q(c):
             b.append("return %s;" % cons(R, okv, c["ok"]))
         else:
             call = "f%d(x)?" % (i + 1)
+            if opvar:       # ? applied to a variable declared from the call
+                b.append("%s t = f%d(x);" % (R, i + 1))
+                call = "t?"
             if ctx == "decl":
                 b += ["%s v = %s;" % (T, call), 'println("post", %d, v);' % i, "return %s::%s(v);" % (R, okv)]
             elif ctx == "asg":
@@ -424,8 +438,8 @@ def ex_ser(e):
         return k
     if k == "L":
         return "L%d" % e[1]
-    if k == "I":
-        return "I " + ex_ser(e[1])
+    if k in ("I", "AT"):
+        return k + " " + ex_ser(e[1])
     return "%s %s %s" % (k, ex_ser(e[1]), ex_ser(e[2]))
 
 
@@ -443,11 +457,23 @@ def ex_cb(e):
         return "(*np)"
     if k == "I":
         return "arr[%s]" % ex_cb(e[1])
+    if k == "AT":
+        return "at(%s)" % ex_cb(e[1])
+    if k in ("DV", "MD"):
+        return "%s(%s, %s)" % (k.lower(), ex_cb(e[1]), ex_cb(e[2]))
     return "(%s %s %s)" % (ex_cb(e[1]), k, ex_cb(e[2]))
 
 
 def ex_atom(e):
-    return e[0] in ("A", "B", "L", "I")
+    return e[0] in ("A", "B", "L", "I", "AT", "DV", "MD")
+
+
+def ex_has_call(e):
+    return e[0] in ("AT", "DV", "MD") or any(ex_has_call(x) for x in e[1:] if isinstance(x, list))
+
+
+T_HELPERS = ["long dv(long p, long q) { int u = 3; return p / q; }", "long md(long p, long q) { return p % q; }",
+             "long at(long i) { int[3] t; t[0] = 5; t[1] = 15; t[2] = 25; return t[i]; }"]
 
 
 def line_t(c):
@@ -465,7 +491,7 @@ def cb_t(c):
         te = "%s %s" % (kw, ex_cb(e) if ex_cb(e).startswith("(") else "(" + ex_cb(e) + ")")
     setup = ["int[3] arr; arr[0] = 5; arr[1] = 15; arr[2] = 25;", "int x = 4; int* p = &x; int* np = nullptr;"]
     arms = ["match (%s) {", '    Ok(b0) => { println("arm 0", b0); }', '    Err(b1) => { println("arm 1", b1); }', "}"]
-    out = []
+    out = list(T_HELPERS) if ex_has_call(e) else []
     ctx = c["ctx"]
     A, B = int_lit(c["a"]), int_lit(c["b"])
     if ctx in ("ret", "decl"):
@@ -516,7 +542,7 @@ def py_eval3(e, a, b):
         return 4, 4, None
     if k == "D1":
         return None, 0, "null"
-    if k == "I":
+    if k in ("I", "AT"):
         v, m, err = py_eval3(e[1], a, b)
         if v is None:
             return None, m, err
@@ -538,11 +564,11 @@ def py_eval3(e, a, b):
         r = x * y
     else:
         if y == 0:
-            return None, m, "div0" if k == "/" else "mod0"
+            return None, m, "div0" if k in ("/", "DV") else "mod0"
         q = abs(x) // abs(y)
         if (x < 0) != (y < 0):
             q = -q
-        r = q if k == "/" else x - q * y
+        r = q if k in ("/", "DV") else x - q * y
     return r, max(m, abs(r)), None
 
 
@@ -699,6 +725,8 @@ def label(c, m):
         ps = [c["ok"]] + [l[1] for l in c["links"]]
         if any(p == ["str", ""] for p in ps):
             labs.append("C13-empty-string-payload")
+        if c["kind"] == "R" and any(len(l) > 2 and l[2] == "v" for l in c["links"]) and any(l[1][0] == "str" for l in c["links"]):
+            labs.append("C13-decl-from-call-drops-string")
     else:
         if c["ctx"] in ("asg", "asgmain"):
             labs.append("C13-try-outside-return-assignment")
@@ -729,6 +757,9 @@ def std_types():
         ts.append({"kind": "gen", "name": "G", "targ": T, "variants": [["Val", T], ["Nil", "none"]]})
         for E in ("int", "string"):
             ts.append({"kind": "result", "name": "Result<%s, %s>" % (T, E), "variants": [["Ok", T], ["Err", E]]})
+        U = {"int": "string", "long": "int", "string": "long"}[T]
+        ts.append({"kind": "gen2", "name": "R2", "targs": [T, U], "decl": ["Good(T)", "Bad(U)", "Code(int)", "Zip"],
+                   "variants": [["Good", T], ["Bad", U], ["Code", "int"], ["Zip", "none"]]})
     return ts
 
 
@@ -1054,7 +1085,10 @@ def gen_chains(seed, nmax):
                 rng = rng_for(seed, "c13-chain", kind, n, k)
                 ek = rng.choice(["int", "string"])
                 for sel in range(0, n + 1):
-                    links = [[c, pick_payload(rng, ek, safe=True)] for c in list(ctxs) + ["decl"]]
+                    # operand form: the call / a variable declared from the call; every link's form flips from one failing
+                    # position to the next, so each (context assignment, link) meets both forms
+                    links = [[c, pick_payload(rng, ek, safe=True), "v" if (k + j + sel) % 2 and (ek == "int" or kind == "O") else "c"]
+                             for j, c in enumerate(list(ctxs) + ["decl"])]
                     yield {"fam": "Q", "kind": kind, "ok": pick_payload(rng, "int", safe=True), "sel": sel, "links": links, "ekind": ek}
 
 
@@ -1065,8 +1099,11 @@ def gen_chain_payloads():
             for z in INT_POOL:
                 yield {"fam": "Q", "kind": kind, "ok": ["int", str(z)], "sel": 0, "links": [[ctx, ["int", "1"]]] * 3, "ekind": "int"}
                 yield {"fam": "Q", "kind": kind, "ok": ["int", "5"], "sel": 3, "links": [[ctx, ["int", str(z)]]] * 3, "ekind": "int"}
+                yield {"fam": "Q", "kind": kind, "ok": ["int", str(z)], "sel": 0, "links": [[ctx, ["int", "1"], "v"]] * 3, "ekind": "int"}
+                yield {"fam": "Q", "kind": kind, "ok": ["int", "5"], "sel": 3, "links": [[ctx, ["int", str(z)], "v"]] * 3, "ekind": "int"}
             for s in STR_POOL:
                 yield {"fam": "Q", "kind": kind, "ok": ["int", "5"], "sel": 2, "links": [[ctx, ["str", s]]] * 3, "ekind": "string"}
+                yield {"fam": "Q", "kind": kind, "ok": ["int", "5"], "sel": 2, "links": [[ctx, ["str", s], "v"]] * 3, "ekind": "string"}
                 if ctx != "bin":
                     yield {"fam": "Q", "kind": kind, "ok": ["str", s], "sel": 0, "links": [[ctx, ["str", "e"]]] * 3, "ekind": "string"}
 
@@ -1082,7 +1119,7 @@ def gen_random_q(rng, safe):
             ctxs = CTXS[:3]
         else:
             ctxs = CTXS
-        links.append([rng.choice(ctxs), pick_payload(rng, ek, safe)])
+        links.append([rng.choice(ctxs), pick_payload(rng, ek, safe), "v" if rng.random() < (0.4 if (ek == "int" or not safe) else 0.0) else "c"])
     ok = pick_payload(rng, "string" if strchain else "long", safe)
     return {"fam": "Q", "kind": rng.choice("RO"), "ok": ok, "sel": sel, "links": links, "ekind": ek}
 
@@ -1091,6 +1128,7 @@ TCTX_OK = ["ret", "decl", "void", "main"]
 TCTX_ALL = TCTX_OK + ["asg", "asgmain"]
 ATOMS = [["A"], ["B"], ["L", 2], ["I", ["A"]], ["I", ["B"]], ["I", ["L", 1]], ["D0"], ["D1"]]
 OPS = ["+", "-", "*", "/", "%"]
+NOD_ATOMS = [a for a in ATOMS if a[0] not in ("D0", "D1")]
 AB = [(7, 2), (7, 0), (0, 5), (-7, 2), (1, 3), (5, -1), (2147483647, 1), (-2147483648, 2)]
 
 
@@ -1098,6 +1136,9 @@ def gen_try_exhaustive(thorough):
     """(T1) every atom and every binary expression over the atoms, under try and checked (quick tier: evaluations
     that succeed alternate between the two keywords, failing ones run under both)."""
     exprs = [a for a in ATOMS] + [[op, x, y] for op in OPS for x in ATOMS for y in ATOMS]
+    # the failing operation one call frame below the try: dv(x, y), md(x, y), at(i), alone and as an operand
+    calls = [[f, x, y] for f in ("DV", "MD") for x in NOD_ATOMS[:4] for y in NOD_ATOMS[:4]] + [["AT", x] for x in NOD_ATOMS]
+    exprs += calls + [[op, k, ["A"]] for op in ("+", "*") for k in calls[::3]] + [["/", ["L", 2], k] for k in calls[1::3]]
     for ei, e in enumerate(exprs):
         for ai, (a, b) in enumerate(AB if thorough else AB[:4]):
             v, m = py_eval(e, a, b)
@@ -1110,7 +1151,6 @@ def gen_try_exhaustive(thorough):
                     yield {"fam": "T", "checked": chk, "ctx": ctx, "a": a, "b": b, "expr": e}
 
 
-NOD_ATOMS = [a for a in ATOMS if a[0] not in ("D0", "D1")]
 
 
 def rand_expr(rng, d, atoms=None):
@@ -1123,6 +1163,11 @@ def rand_expr(rng, d, atoms=None):
         if a[0] == "I" and rng.random() < 0.5:
             return ["I", rand_expr(rng, d - 1, NOD_ATOMS) if d > 0 else ["L", rng.randint(-1, 3)]]
         return a
+    if rng.random() < 0.2:          # the operation inside a called function (no dereference in its arguments)
+        f = rng.choice(["DV", "MD", "AT"])
+        if f == "AT":
+            return ["AT", rand_expr(rng, d - 1, NOD_ATOMS)]
+        return [f, rand_expr(rng, d - 1, NOD_ATOMS), rand_expr(rng, d - 1, NOD_ATOMS)]
     return [rng.choice(OPS), rand_expr(rng, d - 1, atoms), rand_expr(rng, d - 1, atoms)]
 
 
@@ -1193,11 +1238,17 @@ def shrink(c, still_bad):
                     cands.append(dict(c, links=c["links"][:k] + c["links"][k + 1:], sel=sel))
             for k in range(n):
                 if c["links"][k][0] != "decl":
-                    cands.append(dict(c, links=c["links"][:k] + [["decl", c["links"][k][1]]] + c["links"][k + 1:]))
+                    cands.append(dict(c, links=c["links"][:k] + [["decl"] + c["links"][k][1:]] + c["links"][k + 1:]))
+                if len(c["links"][k]) > 2 and c["links"][k][2] == "v":
+                    cands.append(dict(c, links=c["links"][:k] + [c["links"][k][:2]] + c["links"][k + 1:]))
         else:
             e = c["expr"]
-            if len(e) == 3 and e[0] in OPS:
+            if len(e) == 3 and e[0] in OPS + ["DV", "MD"]:
                 cands += [dict(c, expr=e[1]), dict(c, expr=e[2])]
+            if e[0] == "AT":
+                cands += [dict(c, expr=["I", e[1]]), dict(c, expr=e[1])]
+            if e[0] in ("DV", "MD"):
+                cands.append(dict(c, expr=["/" if e[0] == "DV" else "%", e[1], e[2]]))
             if e[0] == "I" and e[1][0] != "L":
                 cands.append(dict(c, expr=e[1]))
         for q in cands:
@@ -1382,6 +1433,8 @@ def run(rep):
     j1 = next((j for j, o in enumerate(origin) if o == "A-transports-exhaustive"), 0) + 37
     j2 = next((j for j, o in enumerate(origin) if o == "Q-chains-exhaustive"), 0) + 58
     j3 = next((j for j, o in enumerate(origin) if o == "T-expressions-exhaustive"), 0) + 101
+    j4 = next((j for j, o in enumerate(origin) if o == "A-name-relations-pairs"), 0) + 11
+    j5 = next((j for j, o in enumerate(origin) if o == "M-name-relations-suites"), 0) + 3
     rep.coverage.update({
         "evaluations": len(cases) + len(msgs), "distinct_nontrivial": nontrivial,
         "rule": "real interpreter (main) vs extracted Coq Mech model on the same skeleton program: stdout lines and error class must be "
@@ -1393,14 +1446,19 @@ def run(rep):
                             "all step sequences of length <= %d over {decl-var, decl-call, assign-var, assign-call, assign-constructor, parameter} x "
                             "3 sources x {match var, match call} x every variant of 3 types; ? chains: 1..%d links x every context assignment "
                             "(5 contexts) x failing link at every position x Result/Option; try/checked: all binary expressions over 8 atoms x 5 "
-                            "operators x %d operand pairs%s" % (5 if thorough else 4, 3 if thorough else 2, 5 if thorough else 4,
-                                                                 len(AB) if thorough else 4, " x 6 statement contexts" if thorough else " (statement context rotating over 4)"),
+                            "operators x %d operand pairs%s; variant-name relations: every ordered pair (r, s) of %d sets of related names x 5 arm "
+                            "lists, all ordered arm subsets x wildcard positions x 3 values for %s name sets; match suites: 5 styles x nested match at "
+                            "no/first/second arm x 7 arm lists x 2 values over a prefix-related pair; ? operand form (call / variable) alternating "
+                            "over every link of every chain; 62 expressions with the failing operation inside a called function" % (
+                                5 if thorough else 4, 3 if thorough else 2, 5 if thorough else 4,
+                                len(AB) if thorough else 4, " x 6 statement contexts" if thorough else " (statement context rotating over 4)",
+                                len(NAME_SETS), "all" if thorough else "3 (seed-chosen)"),
         "input_distribution": hist, "programs": len(cases), "classify_messages": len(msgs), "classify_classes": cclasses,
         "model_conforming_to_spec": n_conf, "in_proved_fragment": n_safe,
         "nonconforming_by_known_finding": lab_hist,
         "avoided_known_findings": "main stream = cases of the proved fragment (safe_a/safe_q/safe_t, extracted): %d; all others are compared with "
                                   "the Mech model only and labelled by the recorded defect they contain" % n_safe,
-        "samples": [{"case": cases[j], "cb": to_cb(cases[j]), "impl": impls[j], "spec": models[j]["spec"]} for j in (j1, j2, j3)
+        "samples": [{"case": cases[j], "cb": to_cb(cases[j]), "impl": impls[j], "spec": models[j]["spec"]} for j in (j1, j2, j3, j4, j5)
                     if j < len(cases)],
     })
     for c, m, why in inconsistent[:3]:
@@ -1482,7 +1540,10 @@ def run(rep):
                           "model and implementation disagree on known-finding replay " + f["id"], same(i, exp))
     rep.assumptions += [
         "the Mech model is tied to the C++ by differential testing (stdout transcript + error class), not by proof",
-        "skeletons are printed to Cb text by the Python printer; binding names are fresh per arm (reuse of a binding name is a recorded finding)",
+        "skeletons are printed to Cb text by the Python printer; binding names follow 4 schemes (fresh per arm; one name per payload kind; "
+        "`_`-prefixed; names that are prefixes of each other) and are shared only between payloads of one kind and never equal a variable "
+        "(C13-binding-name-reuse, -string-then-int, -overwrites-variable are recorded findings); the model has no parameter for binding names, "
+        "arm-body form or the packaging of a match into a function - that these do not matter is tested, not proved",
         "payload strings contain no quote, backslash, brace or control character; integer operands of try/checked keep every intermediate below 2^62",
         "stderr text is reduced to an error class; diagnostics printed on stderr by successful runs are ignored",
     ]
